@@ -729,7 +729,7 @@ def needs_sep(a: str, b: str) -> bool:
 
 
 RICH_UNITS = [" ", "  ", "\t", "\n", "\r\n", "\n\n   ", " \r", "/**/", "/***/", "/*/ */", "/* a\n * b\n */", "/* ' \" ''' \"\"\" */", "/* // */",
-              "/* é😀 */", "// x\n", "//\n", "// ' \" /* \r\n", "// é😀 */\n", "\\\n", "\\ \t\n", "\\\r\n", "\\\r", "\\ \n\n  ", "\\\x0c"]
+              "/* é😀 */", "/* e\u0301 か\u3099 \u1100\u1161 */", "/* \ufb01 \u2126 \u212b \u00bd \uac00 */", "// cafe\u0301 \ufb01\n", "// x\n", "//\n", "// ' \" /* \r\n", "// é😀 */\n", "\\\n", "\\ \t\n", "\\\r\n", "\\\r", "\\ \n\n  ", "\\\x0c"]
 RICH_TAILS = ["", "", "\n", "  ", "// eof without newline", "/* unterminated", "/*", "\t/* é\n *", "\\\n"]
 
 
